@@ -299,7 +299,9 @@ fn find_scenario<'a>(spec: &'a CheckSpec, name: &str) -> &'a dyn Scenario {
 }
 
 fn read_json(path: &str) -> Value {
-    let t = std::fs::read_to_string(path).unwrap_or_else(|e| harness_error(&format!("cannot read {}: {}", path, e)));
+    // lossy: a run over a broken library can put bytes from uninitialised memory into event text
+    let b = std::fs::read(path).unwrap_or_else(|e| harness_error(&format!("cannot read {}: {}", path, e)));
+    let t = String::from_utf8_lossy(&b).into_owned();
     serde_json::from_str(&t).unwrap_or_else(|e| harness_error(&format!("cannot parse {}: {}", path, e)))
 }
 
